@@ -321,3 +321,24 @@ PROPS["C09"] = {
     "assumptions": ["the copy of retained variables into the shadow uses the public storage API (set_global / set_instance_var)"],
     "design_ref": "DESIGN.md section 3, C09",
 }
+
+PROPS["C13"] = {
+    "engine": "c13",
+    "env": {"TRUST_HIR_SALSA_EVENT_METRICS": "1"},
+    "level": "exploration",
+    "technique": "incremental-vs-fresh differential monitor over the public trust_hir::Database API after edit/remove/re-add/query histories, with idempotence checks, salsa memoisation counters as non-triviality witness and a concurrent reader variant",
+    "quick": {"shards": 8, "budget_s": 25, "watchdog_s": 900},
+    "thorough": {"shards": 16, "budget_s": 420, "watchdog_s": 3600},
+    "floor": {"quick": 300, "thorough": 10000},
+    "require_counters": {"quick": {"answers_compared": 2000000, "salsa_cache_hits": 5000, "salsa_recomputes": 20000, "histories_with_concurrent_reader": 50}, "thorough": {"answers_compared": 100000000}},
+    "rule": "1-5 files with cross-file references (functions, FB types, struct/enum types, configuration globals, a namespace); per file a pool of 6-7 texts (valid, changed signature, renamed symbol, "
+            "syntax error, empty, duplicate declaration) plus token-level mutants; histories of 5-60 ops {set, remove, re-add, query(kind,file)} with queries in random order so different memo sets "
+            "exist before each edit; 20% of histories run with a reader thread querying through an RwLock while the edits are applied. distinct = the history; non-trivial = the salsa counters show "
+            ">= 1 cache hit and >= 1 recompute over the history (reuse path and invalidation path both on trial)",
+    "level_text": "After every op (quick: every 3rd and the last) every file's answers from the long-lived database are compared with a brand-new database loaded with the same texts under the same "
+                  "FileIds: diagnostics as a sorted multiset (code, severity, range, message, related), symbols canonicalised to (qualified name, kind, type name, range, imported?), the type name of "
+                  "the expression at every 3rd offset, and analyze() summaries; every query batch is issued twice (idempotence). Raw SymbolId/TypeId numbers are never compared.",
+    "level_note": "The fresh database is loaded in ascending FileId order. The LSP document store above the database is covered by C14.",
+    "assumptions": ["TRUST_HIR_SALSA_EVENT_METRICS=1 only enables counters; it does not change query results"],
+    "design_ref": "DESIGN.md section 3, C13",
+}
